@@ -374,8 +374,15 @@ func checkAlloc256(s alloc256Sc) (res verifsim.Result) {
 	return
 }
 
-func TestVerif_C18_Alloc256(t *testing.T) {
-	verifsim.RunCheck(t, verifsim.Check[alloc256Sc]{
+func TestVerif_C18_Alloc256(t *testing.T) { verifsim.RunCheck(t, c18Alloc256Check()) }
+
+// the same generator and oracle driven by Go's coverage-guided fuzzer (thorough tier)
+func FuzzVerif_C18_Alloc256(f *testing.F) {
+	verifsim.RunFuzz(f, c18Alloc256Check(), "TestVerif_C18_Alloc256")
+}
+
+func c18Alloc256Check() verifsim.Check[alloc256Sc] {
+	return verifsim.Check[alloc256Sc]{
 		Property: "C18", Part: "alloc-256",
 		Rule: "rapid: 1-80 keys and 1-60 peers drawn from SHA-256 prefix-indexed pools (uniform + up to 3 clusters with 1-9 bit prefixes), k in 1..25; " +
 			"oracle = bytewise XOR sort; non-trivial = >=3 items and more peers than k",
@@ -387,7 +394,7 @@ func TestVerif_C18_Alloc256(t *testing.T) {
 			}
 		},
 		Run: func(t *testing.T, s alloc256Sc) verifsim.Result { return checkAlloc256(s) },
-	})
+	}
 }
 
 // ---------- part: regions + key assignment ----------
@@ -567,8 +574,15 @@ func cplStr(a, b string) int {
 	return n
 }
 
-func TestVerif_C18_Regions(t *testing.T) {
-	verifsim.RunCheck(t, verifsim.Check[regionsSc]{
+func TestVerif_C18_Regions(t *testing.T) { verifsim.RunCheck(t, c18RegionsCheck()) }
+
+// the same generator and oracle driven by Go's coverage-guided fuzzer (thorough tier)
+func FuzzVerif_C18_Regions(f *testing.F) {
+	verifsim.RunFuzz(f, c18RegionsCheck(), "TestVerif_C18_Regions")
+}
+
+func c18RegionsCheck() verifsim.Check[regionsSc] {
+	return verifsim.Check[regionsSc]{
 		Property: "C18", Part: "regions",
 		Rule: "rapid: covered prefix of 0-6 bits, 1-120 peers all under it (uniform + clusters, so lopsided tries), region size 1-20, 0-60 keys " +
 			"(mostly under the covered prefix, some outside), order key drawn; oracle = partition/tiling/minimality/order by definition over bit strings; " +
@@ -604,7 +618,7 @@ func TestVerif_C18_Regions(t *testing.T) {
 			}
 			return checkRegions(s)
 		},
-	})
+	}
 }
 
 // ---------- part: prefix-set operations (exhaustive + random) ----------
@@ -1190,8 +1204,15 @@ func drawPrefixFree(t *rapid.T, label string, maxLen, maxN int) []string {
 	return set
 }
 
-func TestVerif_C18_PrefixOpsRand(t *testing.T) {
-	verifsim.RunCheck(t, verifsim.Check[prefixSc]{
+func TestVerif_C18_PrefixOpsRand(t *testing.T) { verifsim.RunCheck(t, c18PrefixOpsRandCheck()) }
+
+// the same generator and oracle driven by Go's coverage-guided fuzzer (thorough tier)
+func FuzzVerif_C18_PrefixOpsRand(f *testing.F) {
+	verifsim.RunFuzz(f, c18PrefixOpsRandCheck(), "TestVerif_C18_PrefixOpsRand")
+}
+
+func c18PrefixOpsRandCheck() verifsim.Check[prefixSc] {
+	return verifsim.Check[prefixSc]{
 		Property: "C18", Part: "prefixops-rand",
 		Rule: "rapid: prefix-free sets of up to 14 bit strings of length <=12 built the way the callers maintain them (deep, lopsided), optional prune step, " +
 			"probes = every prefix/sibling/child of every key, orders derived from keys; measure-based clause oracles; non-trivial as prefixops-exh",
@@ -1209,7 +1230,7 @@ func TestVerif_C18_PrefixOpsRand(t *testing.T) {
 			return s
 		},
 		Run: func(t *testing.T, s prefixSc) verifsim.Result { return checkPrefixOps(s) },
-	})
+	}
 }
 
 // ---------- part: ShortestCoveredPrefix ----------
